@@ -2019,6 +2019,92 @@ pub mod vfwd {
 }
 
 // ---------------------------------------------------------------------------------------
+// ICMP forwarder (C11): the real `IcmpForwarder` on raw sockets (needs CAP_NET_RAW), one
+// multiplexer per client; requests are given as 7.3 records and go through the real decoder
+
+pub mod vicmp {
+    use crate::core::Core;
+    use crate::{datagram_pipe, downstream, forwarder, http_downstream, log_utils};
+    use futures::FutureExt;
+    use std::io;
+    use std::net::IpAddr;
+
+    pub struct VDelivered {
+        pub peer: IpAddr,
+        pub type_id: u8,
+        pub code: u8,
+        /// the 7.4 record the real encoder produces for it (`None`: not encodable)
+        pub encoded: Option<Vec<u8>>,
+    }
+
+    pub struct Client {
+        source: Box<dyn datagram_pipe::Source<Output = forwarder::IcmpDatagram>>,
+        sink: Box<dyn datagram_pipe::Sink<Input = downstream::IcmpDatagram>>,
+    }
+
+    pub struct VIcmp {
+        pub clients: Vec<Client>,
+        listen: tokio::task::JoinHandle<io::Result<()>>,
+    }
+
+    /// `None`: no ICMP forwarder is configured for this core
+    pub fn spawn(core: &Core, nclients: usize) -> Option<io::Result<VIcmp>> {
+        let fwd = core.verif_context().icmp_forwarder.clone()?;
+        let mut clients = vec![];
+        for _ in 0..nclients {
+            match fwd.make_multiplexer(log_utils::IdChain::empty()) {
+                Ok((source, sink)) => clients.push(Client { source, sink }),
+                Err(e) => return Some(Err(e)),
+            }
+        }
+        let listen = tokio::spawn(async move { fwd.listen().await });
+        Some(Ok(VIcmp { clients, listen }))
+    }
+
+    impl VIcmp {
+        /// `listen()` has returned (raw sockets could not be opened, or an I/O error)
+        pub fn listen_ended(&mut self) -> Option<String> {
+            if !self.listen.is_finished() {
+                return None;
+            }
+            match (&mut self.listen).now_or_never() {
+                Some(Ok(Ok(()))) => Some("ok".into()),
+                Some(Ok(Err(e))) => Some(format!("err: {}", e)),
+                Some(Err(_)) => Some("panic".into()),
+                None => Some("?".into()),
+            }
+        }
+    }
+
+    impl Client {
+        /// one 7.3 record through the real decoder and the real `IcmpSink::write`
+        pub async fn request(&mut self, record: Vec<u8>) -> String {
+            let mut dec = http_downstream::verif_icmp_decoder(super::chunk_source(vec![record]));
+            let d = match dec.read().await {
+                Ok(d) => d,
+                Err(_) => return "undecodable".into(),
+            };
+            match self.sink.write(d).await {
+                Ok(datagram_pipe::SendStatus::Sent) => "sent".into(),
+                Ok(datagram_pipe::SendStatus::Dropped) => "dropped".into(),
+                Err(e) => format!("err:{:?}", e.kind()),
+            }
+        }
+
+        /// whatever has been delivered to this client so far, without waiting
+        pub fn take(&mut self) -> Vec<VDelivered> {
+            use crate::http_datagram_codec::Encoder as _;
+            let mut out = vec![];
+            while let Some(Ok(d)) = self.source.read().now_or_never() {
+                let encoded = crate::http_icmp_codec::Encoder::default().encode_packet(&d).map(|b| b.to_vec());
+                out.push(VDelivered { peer: d.meta.peer, type_id: d.message.type_id(), code: d.message.code(), encoded });
+            }
+            out
+        }
+    }
+}
+
+// ---------------------------------------------------------------------------------------
 // Shutdown (C19): hand-polled participants
 
 pub mod vshutdown {
